@@ -28,6 +28,7 @@ package parser
 
 import (
 	nurl "net/url"
+	"sort"
 	"strings"
 
 	"github.com/markusmobius/go-domdistiller/internal/pagination/info"
@@ -180,8 +181,17 @@ func newDetectionStateFromMonotonicNumbers(monotonicNumbers []*info.PageInfo, is
 	}
 
 	// Determine which URL page pattern is valid with a valid, and the best, PageParamInfo.
+	// Candidates that can't be told apart are decided in favour of the one evaluated first,
+	// so evaluate them in a fixed order (ranging over the map would make the result random).
+	strPatterns := make([]string, 0, len(pageCandidates))
+	for strPattern := range pageCandidates {
+		strPatterns = append(strPatterns, strPattern)
+	}
+	sort.Strings(strPatterns)
+
 	state := &DetectionState{}
-	for strPattern, candidate := range pageCandidates {
+	for _, strPattern := range strPatterns {
+		candidate := pageCandidates[strPattern]
 		if strPattern == acceptedPagePattern || len(candidate.links) > MaxPagingDocs ||
 			!candidate.pagePattern.IsValidFor(parsedDocURL) {
 			continue
